@@ -2,8 +2,8 @@
    fmtfloat stream, not proved.
    [shortest] only ever returns a decimal c * 10^k lying in the rounding interval of the float (strictly inside, or on
    a boundary when the mantissa is even: the round-to-nearest-even rule) — so whatever digits are printed denote a
-   number that rounds back to the same float, PROVIDED [mk_fdec] is the rounding interval, which is the part left to
-   the correspondence.  It never returns fewer digits than a shorter candidate that is inside: candidates are tried
+   number that rounds back to the same float: that [mk_fdec] really is (inside) the float's rounding interval is proved
+   in Proofs/FloatFmtRead.v (inside_reads_back).  It never returns fewer digits than a shorter candidate that is inside: candidates are tried
    with 1, 2, 3, ... digits and the first precision with a candidate inside wins. *)
 From Tpl Require Import Exp.FloatFmt.
 From Coq Require Import Lia.
